@@ -377,7 +377,8 @@ def tagOf (p : Parsed) (log : List Eff) : String :=
 def run (mode : String) (args : List Str) (impl : String) : String × String × String :=
   match args with
   | c :: rest =>
-    if c ≠ str "req" then ("bad-op", "-", "bad") else
+    -- `req1`..`req3`: the same request on a service started with overlapping ownership lists
+    if !([str "req", str "req1", str "req2", str "req3"].contains c) then ("bad-op", "-", "bad") else
     match parseReq rest with
     | none => ("bad-op", "-", "bad")
     | some p =>
